@@ -53,11 +53,13 @@ func GenerateWithdrawalHash(bridgeId uint64, l2Sequence uint64, sender string, r
 
 func GenerateNodeHash(a, b []byte) [32]byte {
 	var data [32]byte
+	// hash a fresh buffer; appending to a or b could write into the caller's backing array
+	seed := make([]byte, 0, len(a)+len(b))
 	switch bytes.Compare(a, b) {
 	case 0, 1: // equal or greater
-		data = sha3.Sum256(append(b, a...))
+		data = sha3.Sum256(append(append(seed, b...), a...))
 	case -1: // less
-		data = sha3.Sum256(append(a, b...))
+		data = sha3.Sum256(append(append(seed, a...), b...))
 	}
 	return data
 }
